@@ -1,3 +1,4 @@
+pub mod cache;
 pub mod chunker;
 pub mod flight;
 pub mod session;
@@ -5,7 +6,7 @@ pub mod session;
 use crate::core::Engine;
 
 pub fn all() -> Vec<&'static dyn Engine> {
-    vec![&chunker::ChunkerEngine, &session::SessionEngine, &flight::FlightEngine]
+    vec![&chunker::ChunkerEngine, &session::SessionEngine, &flight::FlightEngine, &cache::CacheEngine]
 }
 
 pub fn for_property(id: &str) -> Option<&'static dyn Engine> {
